@@ -141,8 +141,14 @@ _TMPROOT = re.compile(r"/(?:dev/shm|tmp)/verif-[^/\s]+")
 _HEX32 = re.compile(r"[0-9a-f]{32}")
 
 
+_CUT = re.compile(r"\.\.\. [^/\s]*/")
+
+
 def norm_msg(s: str) -> str:
-    return _HEX32.sub("H", _TMPROOT.sub("<root>", _ADDR.sub("0x?", s)))[:1500]
+    # (a long file name is abbreviated to "... <its last characters>": the
+    # fragment of the sandbox directory that is left goes too)
+    s = _TMPROOT.sub("<root>", _ADDR.sub("0x?", s))
+    return _HEX32.sub("H", _CUT.sub("<root>/", s))[:1500]
 
 
 def outcome_of_exc(e: BaseException) -> list:
@@ -479,7 +485,7 @@ class C15(CheckBase):
             return sim
         plan = sim["summary"]["plan"]
         sim_obs = sim.get("observer_outcomes", {})
-        root = tempfile.mkdtemp(prefix="verif-%d-rp-" % os.getpid(),
+        root = tempfile.mkdtemp(prefix="verif-%07d-rp-" % os.getpid(),
                                 dir=SCRATCH_BASE)
         violations = list(sim["violations"])
         detail = {}
